@@ -7,7 +7,10 @@ if TYPE_CHECKING:
 
 
 def gen_import_from_stmt(module: Identifier, target: Identifier) -> str:
-    if not module.isidentifier():
+    # NOTE The module may be dotted or relative, e.g. `os.path`, `.sibling`, `..`
+    name = module.lstrip(".")
+
+    if not module or (name and not all(p.isidentifier() for p in name.split("."))):
         raise ValueError(f"{module!r} is not a valid identifier")
 
     if target != "*" and not target.isidentifier():
